@@ -49,7 +49,7 @@ class Project:
         rd = os.path.join(self.dir, 'recipes')
         for f in os.listdir(rd): os.unlink(os.path.join(rd, f))
         for name, r in model['recipes'].items():
-            with open(os.path.join(rd, name + '.yaml'), 'w') as f: yaml.safe_dump(r, f, default_flow_style=False)
+            with open(os.path.join(rd, name + '.yaml'), 'w') as f: yaml.safe_dump({k: v for k, v in r.items() if not k.startswith('__')}, f, default_flow_style=False)
         cfg = dict(model.get('config') or {}); cfg.setdefault('bobMinimumVersion', '0.25')
         with open(os.path.join(self.dir, 'config.yaml'), 'w') as f: yaml.safe_dump(cfg, f)
         for rel, content in (model.get('files') or {}).items():
